@@ -1,7 +1,21 @@
 """C07 — task scheduler runs every task exactly once, never early, in time order."""
 import itertools
 from collections import Counter
-from lib.core import Case
+import os
+from lib.core import Case, GenError, write_if_changed, LEAN
+from lib import cbuild
+from gen import heap_gen, cfun
+
+def regen(ctx):
+    """Gen/HeapIdx.lean: PARENT_OF / LEFT_OF / RIGHT_OF, the guards of aws_priority_queue_remove and the scheduler's
+    s_compare_timestamps, re-translated from /repo's current source (gen/heap_gen.py); the bridge theorems of
+    Props/C06.lean and Props/C07.lean are re-proved against it"""
+    try:
+        text, _ = heap_gen.generate(cbuild.REPO, cbuild.config_include())
+    except cfun.GenError as e:
+        raise GenError(str(e))
+    write_if_changed(os.path.join(LEAN, "AwsVerif", "Gen", "HeapIdx.lean"), text)
+
 
 ID = "C07"
 LEAN_MODULES = ["AwsVerif.Props.C07"]
@@ -12,7 +26,10 @@ HARNESS = dict(name="sched", flavour="asan")
 P_DIFF_CONCRETE = False
 TIMEOUT = 120
 NOT_PROVED = []
-TRUSTED = ["hand models lean/AwsVerif/Model/Sched.lean and Model/Heap.lean (tied by this correspondence run only)",
+TRUSTED = ["hand models lean/AwsVerif/Model/Sched.lean and Model/Heap.lean (tied by this correspondence run; the timed queue's "
+           "comparator is s_compare_timestamps regenerated from task_scheduler.c on every run, Gen/HeapIdx.lean, with the bridge "
+           "theorem c07_comparator)",
+           "translator gen/cfun.py + gen/heap_gen.py (the comparator's two timestamp reads lifted to uint64_t parameters)",
            "harness/sched.c: task functions interpret scripts against the real API; its forced-failure switch exchanges the "
            "timed queue for a static queue during one schedule_future call to reach the timed_list fall-back"]
 ASSUMPTIONS = ["API contract (enforced by the client wrapper in harness and model): a task is scheduled only while not pending, "
@@ -501,7 +518,7 @@ MANIFEST = dict(
     text=("Lean 4 theorems over the model of task_scheduler.c built on the proved priority-queue model (asap list, timed heap "
           "with per-task handles, timed_list fall-back, s_run_all's detach-then-run, cancel by unlink / heap handle, clean_up "
           "loop; task functions as re-entrant scripts) for every program and script assignment whose execution terminates: "
-          "c07_exactly_once, c07_never_early + c07_first_run_all, c07_cancelled_iff, c07_order, c07_next_time. "
+          "c07_exactly_once, c07_never_early + c07_first_run_all, c07_cancelled_iff, c07_order, c07_next_time; c07_comparator (generated comparator is > on uint64 and a total preorder) and c07_uses_c06 (the timed queue is the C06 heap with that comparator). "
           "Tied to /repo by a correspondence run of the compiled model against the real aws_task_scheduler whose task "
           "functions call the real API re-entrantly, plus a direct exactly-once / never-early / order / next-time oracle driven "
           "by the implementation's own invocation log."),
